@@ -159,7 +159,7 @@ def parse_race_logs(scratch):
             stacks = re.split(r"\n\n", b.strip())
             tops = []
             for st in stacks[:2]:
-                frames = re.findall(r"^\s+(github\.com/Vedant9500/WTF/[^\s(]+)\(", st, re.M)
+                frames = re.findall(r"^\s+(github\.com/Vedant9500/WTF/\S+?)\((?:0x|\)|[^)]*\)$)", st, re.M)
                 frames = [f for f in frames if "/zzverif/" not in f]
                 tops.append(frames[0] if frames else "?")
             key = " <-> ".join(sorted(tops))
@@ -217,7 +217,7 @@ class Run:
             env = dict(os.environ)
             env["GOTRACEBACK"] = "all"
             if eng.get("race"):
-                env["GORACE"] = "halt_on_error=0 log_path=%s" % os.path.join(edir, "race.s%d" % shard)
+                env["GORACE"] = "halt_on_error=0 exitcode=0 log_path=%s" % os.path.join(edir, "race.s%d" % shard)
             memkb = eng.get("mem_kb", 6 * 1024 * 1024)
             if eng.get("race"):
                 shell = "exec \"$@\""  # race runtime reserves huge virtual ranges; no ulimit -v
